@@ -39,7 +39,8 @@ Proof.
     + assert (Hp : match potrf_rec Qc ps_F 32 32 1 1 0 1 (semi_gram Qc ps_F 4 1 (snd (fst (fst ex_lr_run)))) with BOk _ Lc => qc_eqb (Lc 0 0)%nat (qc_make 2 1) = true | _ => False end)
         by (vm_compute; reflexivity).
       destruct (potrf_rec Qc ps_F 32 32 1 1 0 1 (semi_gram Qc ps_F 4 1 (snd (fst (fst ex_lr_run))))) as [Lc|k Lc|]; [eauto|contradiction|contradiction].
-    + intros j L Hj H _. destruct j as [|j]; [|lia]. cbn [potrf_lower] in H. inversion H; subst L. qc_eq.
+    + set (G := semi_gram Qc ps_F 4 1 (snd (fst (fst ex_lr_run)))). intros j L Hj H _. destruct j as [|j]; [|lia].
+      cbn [potrf_lower] in H. injection H as HL. subst L. unfold G. qc_eq.
 Qed.
 
 Lemma ex_lr_hypotheses :
